@@ -224,7 +224,31 @@ def run(chk):
             chk.tie_broken("macros with expression loop variables", dict(label=lab, impl=r[:200], model=m[:200]))
     chk.stream("every macro x 6 receivers x %d expressions in the place of the loop variable" % len(IDARGS), 2 * len(mcases), len(mcases),
                exhaustive=True)
-    # ---- nesting ladders -----------------------------------------------------------------------------------------
+    # calendar accessors at the two ends of the timestamp range, where a zone's offset points out of the range (folded
+    # by the compiler when the instant is a literal, run by the VM when it is bound)
+    ACC = ["getDate", "getDayOfMonth", "getDayOfWeek", "getDayOfYear", "getFullYear", "getHours", "getMilliseconds", "getMinutes",
+           "getMonth", "getSeconds"]
+    TS_MAX, TS_MIN = 8210266876799, -8334601228800
+    zcases, zlabels = [], []
+    for n_ in [TS_MAX, TS_MAX - 1, TS_MAX - 3600, TS_MAX - 14 * 3600, TS_MAX - 86400, TS_MAX + 1, TS_MIN, TS_MIN + 1, TS_MIN + 3600,
+               TS_MIN + 12 * 3600, TS_MIN + 86400, TS_MIN - 1, 253402300799, -62135596800, -62135596801, 0]:
+        for z in ["Asia/Tokyo", "Pacific/Kiritimati", "America/New_York", "Pacific/Honolulu", "Etc/GMT+12", "Etc/GMT-14", "UTC", "Europe/Paris"]:
+            for a in ACC:
+                zlabels.append("timestamp(%d).%s('%s')" % (n_, a, z))
+                zcases.append(evalsrc_case(zlabels[-1], binds=[], ufuncs=[], std=False))
+                zlabels.append("timestamp(n).%s(z)  [n=%d, z=%s]" % (a, n_, z))
+                zcases.append(evalsrc_case("timestamp(n).%s(z)" % a, binds=[("n", vi(n_)), ("z", vs(z))], ufuncs=[], std=False))
+        for a in ACC:
+            zlabels.append("timestamp(%d).%s()" % (n_, a))
+            zcases.append(evalsrc_case(zlabels[-1], binds=[], ufuncs=[], std=False))
+    for prof in ("debug", "release"):
+        zimpl = run_impl(zcases, prof, isolate=True)
+        for lab, c, r in zip(zlabels, zcases, zimpl):
+            if is_dead(r):
+                chk.violation("a calendar accessor panics / aborts at the edge of the timestamp range (%s build)" % prof,
+                              dict(case=c, label=lab, impl=r, profile=prof))
+    chk.stream("10 calendar accessors x 16 instants at and around both ends of the timestamp range x 8 zones, literal and bound",
+               2 * len(zcases), len(zcases), exhaustive=True)
     lcases, llabels = [], []
     CHEAP = {"parens", "list", "neg", "not", "open", "close", "quotes", "ident", "string", "digits", "tern", "map", "call", "macro",
              "fstr", "elsechain", "match", "idx", "nestmacro"}          # refused or lexed in linear time
